@@ -290,7 +290,7 @@ def seeds(pat, level=1):
         if f == "bid":
             return bid_alpha
         if f == "tag":
-            return M.TAGS
+            return M.TAGS + (("preview",) if "TAG" in pat.names else ())  # (TAG accepts `preview`; PYTAG has no such spelling)
         raise KeyError(f)
 
     base = {}
